@@ -16,17 +16,17 @@ import (
 const HelpersMod = "github.com/gontainer/gontainer-helpers/v3"
 
 type Scratch struct {
-	Dir        string // root of the scratch area (removed by Cleanup)
-	Repo       string // instrumented copy of the working tree
-	Helpers    string // instrumented copy of the runtime module
-	Sim        string // copy of /verif/sim
-	Worker     string // engine-1 worker binary
-	WorkerRace bool   // the worker is a race-detector build (the tree starts goroutines of its own)
-	Pristine   string // uninstrumented copy of internal/gontainer (the self-configuration and its checked-in output)
+	Dir          string // root of the scratch area (removed by Cleanup)
+	Repo         string // instrumented copy of the working tree
+	Helpers      string // instrumented copy of the runtime module
+	Sim          string // copy of /verif/sim
+	Worker       string // engine-1 worker binary
+	WorkerRace   bool   // the worker is a race-detector build (the tree starts goroutines of its own)
+	Pristine     string // uninstrumented copy of internal/gontainer (the self-configuration and its checked-in output)
 	PristineTree string // uninstrumented copy of the whole working tree (the real binary is built from it on demand)
-	RepoRep    *instr.Report
-	HelpersRep *instr.Report
-	BuildS     float64
+	RepoRep      *instr.Report
+	HelpersRep   *instr.Report
+	BuildS       float64
 }
 
 func (s *Scratch) Cleanup() {
